@@ -6,7 +6,7 @@ let () =
     while true do
       let line = input_line stdin in
       if String.trim line <> "" then begin
-        print_string (implode (Model.handle5 (explode line)));
+        print_string (implode (Model.handle6 (explode line)));
         print_newline ()
       end
     done
